@@ -66,6 +66,9 @@ def starLoop (k : Str → Bool) : Str → Bool
   | [] => k []
   | c :: s => k (c :: s) || (c != '/' && starLoop k s)
 
+/-- length in bytes of the UTF-8 encoding (`len(s)` in Go) -/
+def utf8Len (s : Str) : Nat := (s.map (fun c => c.utf8Size)).sum
+
 theorem splitOn_ne_nil (c : Char) (s : Str) : splitOn c s ≠ [] := by
   induction s with
   | nil => simp [splitOn]
